@@ -70,4 +70,5 @@ Definition judge_fixpnt (cfg : list Z) (op : Z) (args res : list Z) : verdict :=
   if Z.eqb op OP_from_uint then exact [fx_of_Q n r sat (inject_Z (int_decode false a b))] true else
   if Z.eqb op OP_to_f64 then exact [f64_encode (num_of_Q (Qred (fx_val n r a)))] true else
   if Z.eqb op OP_to_f32 then exact [f32_encode (num_of_Q (Qred (fx_val n r a)))] true else
+  if Z.eqb op OP_to_f64_rt then (if Z.leb n 53 then exact [wrap n a] true else mkV true res false) else
   mkV false [] false.
